@@ -208,6 +208,24 @@ EXTRA4 = {
 for pid, (t, x) in EXTRA4.items():
     CLAIMED[pid]['technique'] += t
     CLAIMED[pid]['text'] += x
+# Round-9 additions (DESIGN.md §12.9)
+EXTRA5 = {
+ 'C03': ('; must-pass-through of the role-list write after its encoding; stale-position rule for removals inside a loop',
+         ' An encoded role list is written on every successful path (an emptied list is persisted); no role is removed at a position computed before an earlier removal of the same pass.'),
+ 'C05': ('; exact-capacity key prefixes (shared with C13-R2)',
+         ' Storage keys are built on prefixes without spare capacity.'),
+ 'C07': ('; exhaustive search before the create role is appended (shared with C15-R5)',
+         ' The create role is appended only after a search of the whole list found none.'),
+ 'C08': ('; tables and presence tests of the generated MetaData encoder (shared with C14-R1)',
+         ' The metadata message is encoded field by field as it is (no URI is left out).'),
+ 'C12': ('; element-list stores of the builder are appends onto the list itself; code-metadata flag tables (shared with C20-R1)',
+         ' No builder method other than Clear / SetLast replaces the argument list; the code-metadata flags of deploy data are written and read at the same positions.'),
+ 'C15': ('; the search before the append of the create role leaves towards the append only through the loop header',
+         ' The search that prevents duplicate create roles looks at every element.'),
+}
+for pid, (t, x) in EXTRA5.items():
+    CLAIMED[pid]['technique'] += t
+    CLAIMED[pid]['text'] += x
 NA = {}
 for i in range(1, 21):
     pid = 'C%02d' % i
